@@ -7,8 +7,12 @@ World      reflection: every class with declared members (xml_structure properti
            a value of any named schema type via xsi:type).
 Builder    concrete values: a schema-valid base instance of every class (members that the schema requires are learnt
            from the verdicts of the XSD), the concrete value of an abstract value class for one member.
-roundtrip  the real as_etree_node / mk_node -> tostring -> fromstring -> from_node -> second write, the XSD verdict,
-           canonical values (verif.mdibharness.canon) and canonical XML (c14n) as tokens.
+Xml        writing / reading with the real code (as_etree_node / mk_node, from_node), the XSD verdict of a document and
+           its classification: "missing" / "facet" (a value outside the schema value space was chosen), "struct" /
+           "order" (the document has a shape the schema forbids), "combination" (an element that is legal in the type
+           but not together with its siblings - both branches of a choice, more items than maxOccurs: decided with the
+           XSD itself on rearranged / reduced copies of the document), "nested" (inside the object that is the value).
+cval/cobj  canonical values (verif.mdibharness.canon; numbers by value, lxml elements by exclusive c14n), Tok: tokens.
 """
 from __future__ import annotations
 
@@ -401,6 +405,7 @@ class Builder:
         self.str_choice: dict[int, int] = {}                       # id(prop) -> index into STR_PAIRS (learnt)
         self.base_state: dict[type, str] = {}                      # class -> 'valid' | 'invalid:<...>' | 'na'
         self.base_errors: dict[type, list] = {}
+        self.no_lexical: list[str] = []                            # string members for which no catalogue pair is valid
         self.seed = seed
         self._learning: set = set()
 
@@ -799,14 +804,6 @@ class Xml:
             return root, target
         return None
 
-    def validate(self, root, target=None):
-        """Validate the serialised document; return [(path, message, class)], path relative marker for target."""
-        data = etree.tostring(root)
-        doc = etree.fromstring(data)
-        if self.w.schema.validate(doc):
-            return [], doc
-        return [(e.path, e.message, err_class(e.message)) for e in self.w.schema.error_log], doc
-
     def verdict(self, obj, pi: PropInfo | None = None, vc: str = '', strip=None, xml1: bytes | None = None):
         """XSD verdict for obj: 'valid' | 'struct' | 'value' | 'na' (+ the error list).
 
@@ -965,6 +962,29 @@ class Xml:
             b._learning.discard(cls)  # noqa: SLF001
         b.base_state[cls] = state
         return state
+
+    def learn_strings(self, cls):
+        """Pick, for every string member of cls, a pair of values from the lexical space the schema gives it."""
+        b = self.b
+        if b.base_state.get(cls) != 'valid':
+            return
+        for pi in self.w.props[cls]:
+            if pi.stype != 'str' or pi.kind not in ('attr', 'nodetext', 'textlist', 'wordlist', 'attrlist') \
+                    or id(pi.prop) in b.str_choice:
+                continue
+            for choice in range(len(STR_PAIRS)):
+                b.str_choice[id(pi.prop)] = choice
+                try:
+                    obj = b.base(cls)
+                    b.set_value(obj, pi, 'one')
+                    verdict, errors = self.verdict(obj, pi, 'one')
+                except Exception:  # noqa: BLE001
+                    verdict, errors = 'na', []
+                if verdict != 'value' or not any(k == 'facet' for _, _, k in errors):
+                    break
+            else:
+                b.str_choice[id(pi.prop)] = 0
+                b.no_lexical.append(f'{cls.__name__}.{pi.name}')
 
     def _repair(self, errors, omap, doc) -> bool:
         progress = False
